@@ -138,6 +138,8 @@ func (fr *Frame) applyContract(st *State, call ssa.CallInstruction, fn *ssa.Func
 	fr.checkRequires(st, call, fn, ct, args)
 	if ct.IsExtern {
 		vc.Assumed["assumed external spec: "+ct.Key] = true
+	} else if ct.Trusted {
+		vc.Assumed["trusted (unchecked) contract of module function: "+ct.Key] = true
 	}
 	old := st.clone()
 	fr.applyModifies(st, old, call, fn, sig, ct, args)
